@@ -63,7 +63,16 @@ def ring_influence(xp, R, i, jc, P, u, seg, semi, last):
     return v
 
 
-def assemble(xp, surfaces, lefts, alpha, beta, v, seg, semi, omega=None, cg=None):
+def reflect_ground(xp, P, alpha, h):
+    """mirror image of point(s) P across the ground plane: the plane parallel to the free stream (angle of attack alpha)
+    at distance h below the origin; n = (sin a, 0, -cos a) is its downward unit normal, p = h n a point on it"""
+    sa, ca = xp.sin(alpha), xp.cos(alpha)
+    n = _vec(xp, [sa, 0 * sa, -ca])
+    d = ((P - h * n) * n).sum(axis=-1)
+    return P - 2 * d[..., None] * n
+
+
+def assemble(xp, surfaces, lefts, alpha, beta, v, seg, semi, omega=None, cg=None, ground_h=None):
     """returns dict with collocation points, force points, bound vectors, onset velocities and the two influence
     arrays AIC_c[e, p, 3], AIC_f[e, p, 3] (e: evaluation panel, p: influencing panel; global panel order = surfaces in
     list order, panels row-major (chordwise, then spanwise in the mesh's own order))"""
@@ -101,6 +110,13 @@ def assemble(xp, surfaces, lefts, alpha, beta, v, seg, semi, omega=None, cg=None
                         w = ring_influence(xp, R, i, jc, pts[e], u, seg, semi, last)
                         if jm is not None:
                             w = w + ring_influence(xp, R, i, jm, pts[e], u, seg, semi, last)
+                        if ground_h is not None:
+                            # method of images: the mirror image of every ring across the ground plane, same corner
+                            # order, opposite strength
+                            Rg = reflect_ground(xp, R, alpha, ground_h)
+                            w = w - ring_influence(xp, Rg, i, jc, pts[e], u, seg, semi, last)
+                            if jm is not None:
+                                w = w - ring_influence(xp, Rg, i, jm, pts[e], u, seg, semi, last)
                         row.append(w)
             rows.append(row)
         AIC[which] = rows
